@@ -9,6 +9,17 @@ CHECKS = {
     note='Trusted: ply LRParser drives the tables as LR theory says (validated each run on all accepted strings up to length 3/4 and on every witness through the real engine); z3 as SAT solver (sat models always replayed); ref/es5_syntactic.gram as the reading of the standard. Outside: longer sentences, the lexical grammar and lexer feedback (C05/C06), early errors. Labels not compared: Identifier/PropIdentifier/VarDecl (factoring differs between the grammars).',
     technique='bounded SAT encoding of the real LALR tables (LR-SAT) vs a reference CFG (CFG-SAT), all token strings up to length n per query; witnesses replayed on the real ply engine',
     engine='GX'),
+ 'C16': dict(
+    level=('other', 'Complete enumeration of the finite spaces the property is about - every p_* action executed on every combination of child value shapes (presence/absence/list) it can receive, children() compared with attribute reflection; every accepted token string of length <= 4/5 (from the real tables) parsed and walked against a reflection-based reference traversal - plus SX symbolic execution of Walker.extract with a symbolic skip count (z3 decides the loop). '
+                    'The solver only contributes the extract leg: optional-part presence is a finite Python-level (is None) structure that no solver variable can stand for, so that part is exhaustive enumeration and said so.', 'DESIGN.md C16'),
+    note='Trusted: vars(node) reflection as the definition of "stored in an attribute"; the comments attribute is excluded (comment nodes are not children by design). Outside: trees of the T leg longer than the bound.',
+    technique='exhaustive enumeration of child-shape combinations per production and of bounded accepted token strings (from the real LALR tables) + symbolic execution (z3) of Walker.extract with symbolic skip',
+    engine='SX+GX'),
+ 'C18': dict(
+    level=('fault_enumeration', 'The real io.read/io.write/write_sourcemap run under SX with stream doubles that raise when a shared call counter equals a SYMBOLIC fault index; z3 decides every comparison, so each explored path is one feasible fault position (every factory call, read, parse, unparse step, write, writelines) or the fault-free run, for 42 (quick) / 200+ (thorough) stream arrangements; closing discipline and propagation asserted on every path, content/URL/map equality with the lower-level API on the fault-free path.', 'DESIGN.md C18'),
+    note='Trusted: stream doubles model any stream; expected paths computed with os.path.relpath. Outside: faults in close(), two faults per run, symbolic path strings.',
+    technique='symbolic execution of the real Python code with a symbolic fault index (z3 Int) over instrumented stream doubles',
+    engine='SX'),
  'C17': dict(
     level=('model_checking', 'Four parser configurations are built by the real code in separate interpreters on scratch copies (generated modules, in-memory un-optimised, helper first-build, helper re-optimise); their LALR tables are compared pairwise by LR-SAT in-equivalence queries over all token strings up to length 5/7 (identical tables give a syntactically unsatisfiable formula, differing ones a SAT search for a distinguishing input); master lexer patterns and rule bindings compared alternative by alternative; SX proves for every spelling that each lexer rule function returns a declared token type (the check ply skips in optimised mode, so a violation is exactly an input on which the modes diverge).', 'DESIGN.md C17'),
     note='Trusted: ply semantics; textual identity of master regexes implies equal lexing. Outside: longer inputs; language-equivalence of textually different master patterns is reported as inconclusive, not decided.',
